@@ -45,31 +45,71 @@ def run(tier, seed, replay=None):
     ck.classify(trs, vs, nontrivial=lambda t, v: t["n"] >= 1)
     for t in trs:
         for e in t["events"]:
-            ck.actions[e.get("status", e["e"])] = ck.actions.get(e.get("status", e["e"]), 0) + 1
+            k = e.get("status") or (e["e"] + (":" + e["act"] if "act" in e else "") + (":" + e["src"] if "src" in e else ""))
+            ck.actions[k] = ck.actions.get(k, 0) + 1
     ck.extra["instances_with_feasible_integer_point"] = sum(1 for v in vs if v.get("feas"))
     ck.extra["mixed_instances"] = sum(1 for t in trs if t["cv"])
     if replay:
         return ck.finish()
-    ck.sample({k: v for k, v in trs[0].items() if k != "input"})
+    ck.sample({k: (v if k != "events" else v[:12]) for k, v in trs[0].items() if k != "input"})
     ctl = []
+
+    def ridx(t):
+        return [i for i, e in enumerate(t["events"]) if e["e"] in ("ret", "raise", "noreturn")]
     for t, v in zip(trs, vs):
-        e = t["events"][0]
+        i0 = ridx(t)[0]
+        e = t["events"][i0]
         if v["ok"] and e.get("status") == "OPTIMAL" and v.get("feas") and any(x != 0 for x in e["x"]) and t["n"] >= 2:
-            c = copy.deepcopy(t); c["events"][0]["obj6"] += 1000000; ctl.append((c, "Objective.is_not_c_dot_x"))
+            c = copy.deepcopy(t); c["events"][i0]["obj6"] += 1000000; ctl.append((c, "why", "Objective.is_not_c_dot_x"))
             j = t["ints"][0] - 1
-            c = copy.deepcopy(t); c["events"][0]["x"][j] += 500000; ctl.append((c, "Solution."))
-            c = copy.deepcopy(t); c["events"][0]["status"] = "INFEASIBLE"; ctl.append((c, "Infeasible.but_integer_feasible_point_exists"))
+            c = copy.deepcopy(t); c["events"][i0]["x"][j] += 500000; ctl.append((c, "why", "Solution."))
+            c = copy.deepcopy(t); c["events"][i0]["status"] = "INFEASIBLE"; ctl.append((c, "why", "Infeasible.but_integer_feasible_point_exists"))
             break
     for t, v in zip(trs, vs):        # a feasible but non-optimal point presented as OPTIMAL: use the maximiser's answer for the minimiser
-        e0, e1 = t["events"][0], t["events"][7]
+        ri = ridx(t)
+        cfgs = t["input"]["configs"]
+        k = next((i for i, cf in enumerate(cfgs) if not cf["minimize"]), None)
+        if k is None or len(ri) != len(cfgs):
+            continue
+        e0, e1 = t["events"][ri[0]], t["events"][ri[k]]
         if v["ok"] and e0.get("status") == "OPTIMAL" and e1.get("status") == "OPTIMAL" and abs(e0["obj6"] - e1["obj6"]) > 1000000:
-            c = copy.deepcopy(t); c["events"][0].update(x=e1["x"], obj6=e1["obj6"]); ctl.append((c, "Optimal.but_better_point_exists"))
+            c = copy.deepcopy(t); c["events"][ri[0]].update(x=e1["x"], obj6=e1["obj6"]); ctl.append((c, "why", "Optimal.but_better_point_exists"))
             break
-    if len(ctl) < 4:
-        raise tlc.MachineryError("negative controls could not be built")
-    cv = ck.validate(DIR, "MilpTrace", [c for c, _ in ctl], "negative controls")
-    for (c, exp), v in zip(ctl, cv):
-        ck.control(f"corrupted trace rejected ({exp} -> {v['why']})", (not v["ok"]) and v["why"].startswith(exp), str(v))
+    n_ret = len(ctl)
+    # step level (Bnb actions): corrupt one logged field of a branch / prune / integral event -> the matching guard must fire
+    want = {"Branch.children_do_not_partition_parent": 0, "Node.box_not_open": 0, "Prune.box_contains_better_point": 0,
+            "Incumbent(": 0}
+    for t, v in zip(trs, vs):
+        if not v["ok"] or v.get("div"):
+            continue
+        for i, e in enumerate(t["events"]):
+            if e["e"] == "milp_node" and e["act"] == "branch" and want["Branch.children_do_not_partition_parent"] < 2:
+                c = copy.deepcopy(t); c["events"][i]["right_lower"][e["var"] - 1] += 1
+                ctl.append((c, "div", "Branch.children_do_not_partition_parent")); want["Branch.children_do_not_partition_parent"] += 1
+            elif e["e"] == "milp_node" and e["act"] == "branch" and want["Node.box_not_open"] < 2:
+                c = copy.deepcopy(t); c["events"][i]["lower"][e["var"] - 1] += 1
+                ctl.append((c, "div", "Node.box_not_open")); want["Node.box_not_open"] += 1
+            elif e["e"] == "milp_incumbent" and want["Incumbent("] < 2:
+                c = copy.deepcopy(t); c["events"][i]["obj6"] += 3000000
+                ctl.append((c, "div", "Incumbent(")); want["Incumbent("] += 1
+            elif e["e"] == "milp_node" and e["act"] == "integral" and want["Prune.box_contains_better_point"] < 2 and v.get("feas"):
+                # an integral node relabelled as a bound prune while no incumbent justifies it
+                c = copy.deepcopy(t); c["events"][i] = {"e": "milp_node", "act": "prune_bound", "lower": e["lower"], "upper": e["upper"]}
+                ctl.append((c, "div", "Prune.")); want["Prune.box_contains_better_point"] += 1
+        if all(x >= 2 for x in want.values()):
+            break
+    if n_ret < 4 or len(ctl) - n_ret < 4:
+        raise tlc.MachineryError("negative controls could not be built: %d return-level, %d step-level" % (n_ret, len(ctl) - n_ret))
+    cv = ck.validate(DIR, "MilpTrace", [c for c, _, _ in ctl], "negative controls")
+    stepfired = {}
+    for (c, where, exp), v in zip(ctl, cv):
+        if where == "why":
+            ck.control(f"corrupted trace rejected ({exp} -> {v['why']})", (not v["ok"]) and v["why"].startswith(exp), str(v))
+        else:
+            hit = any(d.startswith(exp) for d in v.get("div", []))
+            stepfired[exp] = stepfired.get(exp, 0) + hit
+    for exp, k in stepfired.items():
+        ck.control(f"corrupted branch-and-bound event flagged by the Bnb action guard {exp}* ({k} variants)", k > 0, str(cv)[:400])
     ck.rule = ("random bounded MILPs with integer data: 1-3 variables (at most one continuous), bounds 1..4 (40% binaries, with and without "
                "explicit x<=1 rows in shuffled order), knapsack-, cover- and mixed-sign rows; per instance 14 calls: minimize/maximize x "
                "{default, heuristics off, feasible-looking / fractional / wrong-length / negative-on-the-continuous-variable warm start, lns_iterations=3, solution_limit=3}; "
